@@ -12,7 +12,8 @@ using real::Files;
 struct Case {
   Files files; std::string main; std::string tag;  // tag: "" or "ladder:<construct>:<size>" (then files are generated)
   std::string json() const { return real::case_json(files, main, tag.empty() ? "" : ",\"tag\":" + vf::jstr(tag)); }
-  uint64_t hash() const { uint64_t h = vf::fnv(main); for (auto &p : files) { h = vf::fnv(p.first, h); h = vf::fnv(p.second, h); } return vf::fnv(tag, h); }
+  // all rungs of one ladder construct go to the same worker, in ascending order
+  uint64_t hash() const { if (tag.rfind("ladder:", 0) == 0) return vf::fnv(tag.substr(0, tag.find(':', 7))); uint64_t h = vf::fnv(main); for (auto &p : files) { h = vf::fnv(p.first, h); h = vf::fnv(p.second, h); } return vf::fnv(tag, h); }
   std::string key() const { if (!tag.empty()) return tag.rfind("ladder:", 0) == 0 ? tag : tag; std::string k; for (auto &p : files) k += p.first + "=" + p.second + "|"; k += "main=" + main; for (auto &c : k) if (c == '\n') c = ' '; return k; }
   static Case from(const vf::J &j) { return {j["files"].strmap(), j["main"].s, j.has("tag") ? j["tag"].s : ""}; }
 };
@@ -246,10 +247,14 @@ static Level fam_ladder(int maxlog) {
 
 // ---- oracles -----------------------------------------------------------------------------------------------------------
 static int g_since_leakcheck = 0;
+// constructs of the size ladder whose smaller rung already failed (file shared between the driver and its workers)
+static std::string ladder_file(bool parent) { return "/dev/shm/vf_ladder_failed_" + std::to_string(parent ? getpid() : getppid()); }
+static bool ladder_failed(const std::string &construct) { std::ifstream f(ladder_file(false)); std::string l; while (std::getline(f, l)) if (l == construct) return true; return false; }
 static void oracle_C02(const Case &c0, vf::Stats &st) {
   Case c = c0;
   if (!c.tag.empty() && c.tag.rfind("ladder:", 0) == 0) {
     size_t p = c.tag.find(':', 7); std::string construct = c.tag.substr(7, p - 7); long n = 1L << atoi(c.tag.c_str() + p + 3);
+    if (ladder_failed(construct)) { st.add("ladder_rungs_skipped(a smaller rung of the construct already fails)"); return; }
     c.files = ladder_files(construct, n); st.add("ladder_rungs");
   }
   st.add("cases");
@@ -340,5 +345,8 @@ int main(int argc, char **argv) {
     L = {fam_sigma(vocab_core(), 3, "core-vocabulary"), fam_edits(seeds(), vocab_core(), 0, "seeds:1-edits"), fam_spellings(seeds()), fam_literal_boundary(seeds()), fam_sentences(9, 5), fam_multi_del(seeds()), fam_sigma(vocab_core(), 4, "core-vocabulary")};
     if (T) { L.push_back(fam_sentences(11, 7)); L.push_back(fam_edits(seeds(), vocab_core(), 8, "seeds:2-edits of seeds<=8 tokens")); L.push_back(fam_sigma(vocab_core(), 5, "core-vocabulary")); }
   } else { fprintf(stderr, "ERROR: unknown property %s\n", args.prop.c_str()); return 2; }
-  return drv::run<Case>(args, L, o, {}, limit);
+  unlink(ladder_file(true).c_str());
+  int rc = drv::run<Case>(args, L, o, {}, limit, [](const Case &c) { if (c.tag.rfind("ladder:", 0) == 0) { std::ofstream f(ladder_file(true), std::ios::app); f << c.tag.substr(7, c.tag.find(':', 7) - 7) << "\n"; } });
+  unlink(ladder_file(true).c_str());
+  return rc;
 }
